@@ -486,6 +486,11 @@ class Interp:
         elem = self.lib.generic_element(self, it, st)
         self.record("loop", "for", [it], {}, st, {"elem": elem})
         assigned = assigned_names(st.body) | target_names(st.target)
+        acc = append_only(st.body, assigned, fr.module)
+        for n in acc:
+            if isinstance(fr.env.get(n), Seq):
+                fr.env[n].accumulated = True  # a list only appended to: it holds the generic element(s) afterwards
+        assigned = assigned - {n for n in acc if isinstance(fr.env.get(n), Seq)}
         self.havoc(fr, assigned, st, "loop")
         self.assign(st.target, elem, fr, st)
         self.loop_depth += 1
@@ -776,27 +781,13 @@ class Interp:
         return self.lib.binop(self, op, a, b, node)
 
     def e_BoolOp(self, node, fr):
-        vals = [self.eval(v, fr) for v in node.values]
         opn = "and" if isinstance(node.op, ast.And) else "or"
-        # python short-circuit semantics on constants
-        known = []
-        for v in vals:
-            t = self.truth(v, node, fr) if is_pyconst(v) else None
-            known.append(t)
-        if all(k is not None for k in known):
-            if opn == "and":
-                for v, k in zip(vals, known):
-                    if not k:
-                        return v
-                return vals[-1]
-            for v, k in zip(vals, known):
-                if k:
-                    return v
-            return vals[-1]
         out = None
-        n = len(vals)
-        for i, (v, k) in enumerate(zip(vals, known)):
+        n = len(node.values)
+        for i, vn in enumerate(node.values):
+            v = self.eval(vn, fr)
             last = i == n - 1
+            k = self.truth(v, vn, fr) if (is_pyconst(v) or isinstance(v, (Seq, DictV))) else None
             if k is not None:
                 decisive = (opn == "and" and k is False) or (opn == "or" and k is True)
                 if not decisive and not last:
@@ -1029,6 +1020,25 @@ def assigned_names(stmts):
                     out.add(r)
             elif isinstance(n, ast.NamedExpr):
                 out |= target_names(n.target)
+    return out
+
+
+def append_only(body, names, module):
+    """names that the loop body touches only through X.append(...) / X.extend(...) / X.add(...)"""
+    out = set()
+    for name in names:
+        ok, seen = True, False
+        for st in body:
+            for n in ast.walk(st):
+                if isinstance(n, ast.Name) and n.id == name:
+                    seen = True
+                    par = module.parents.get(n)
+                    gp = module.parents.get(par) if par is not None else None
+                    if not (isinstance(par, ast.Attribute) and par.attr in ("append", "extend", "add")
+                            and isinstance(gp, ast.Call) and gp.func is par):
+                        ok = False
+        if ok and seen:
+            out.add(name)
     return out
 
 
